@@ -37,7 +37,11 @@ const DEGENERATE_TARGETS: [&[u8]; 25] = [
     b"/?%", b"/?a=%zz", b"http://example.com",
 ];
 
-const AUTH_VALUES: [&[u8]; 22] = [
+const AUTH_VALUES: [&[u8]; 28] = [
+    // bytes that are white space to a Unicode-aware routine (NBSP 0xA0, NEL 0x85) and none to HTTP
+    b"AWS4-HMAC-SHA256\xa0", b"\xa0AWS4-HMAC-SHA256", b"AWS4-HMAC-SHA256\x85Credential=x", b"\x85AWS4-HMAC-SHA256 Credential=x,\xa0Signature=y",
+    b"AWS4-HMAC-SHA256 \xa0Credential=AKIDEXAMPLE/20150830/us-east-1/service/aws4_request\xa0, SignedHeaders=host\x85, Signature=00",
+    b"AWS4-HMAC-SHA256 Credential=AKIDEXAMPLE/20150830/us-east-1/service/aws4_request, SignedHeaders=host;host;x-amz-date;x-amz-date, Signature=00",
     b"AWS4-HMAC-SHA256 Credential=AKIDEXAMPLE/20150830/us-east-1/service/aws4_request, SignedHeaders=host;x-amz-date, Signature=5fa00fa31553b73ebf1942676e86291e8372ff2a2260956d9b8aae1d763fbf31",
     b"", b" ", b"AWS4-HMAC-SHA256", b"AWS4-HMAC-SHA256 ", b"AWS4-HMAC-SHA256 ,", b"AWS4-HMAC-SHA256 ,,,", b"AWS4-HMAC-SHA256 =", b"AWS4-HMAC-SHA256 Credential=", b"AWS4-HMAC-SHA256 Credential==,Signature=,SignedHeaders=",
     b"AWS4-HMAC-SHA256 Credential=/,Signature=x,SignedHeaders=;", b"AWS4-HMAC-SHA256 Credential=////,Signature=x,SignedHeaders=host", b"AWS4-HMAC-SHA256 Credential=a/b/c/d/e,Signature=\xff\xfe,SignedHeaders=host;;host",
@@ -557,6 +561,23 @@ fn c17_cross_scan(out: &mut RunOut) {
     }
 }
 
+/// Poll a future that never waits (an immediate provider) to completion; None if it is pending.
+fn block_on_ready<F: std::future::Future>(fut: F) -> Option<F::Output> {
+    struct Noop;
+    impl std::task::Wake for Noop {
+        fn wake(self: Arc<Self>) {}
+    }
+    let waker = std::task::Waker::from(Arc::new(Noop));
+    let mut cx = std::task::Context::from_waker(&waker);
+    let mut fut = Box::pin(fut);
+    for _ in 0..8 {
+        if let std::task::Poll::Ready(v) = fut.as_mut().poll(&mut cx) {
+            return Some(v);
+        }
+    }
+    None
+}
+
 fn judge_c17(cx: &DeliveryCtx, out: &mut RunOut) {
     let mut needles: Vec<Needle> = Vec::new();
     for a in cx.accounts {
@@ -634,6 +655,8 @@ fn judge_c17(cx: &DeliveryCtx, out: &mut RunOut) {
         let (parts, body) = req.into_parts();
         let s3 = cx.node.cfg.s3;
         let fold = cx.node.cfg.fold;
+        let accounts_for_debug: Vec<Account> = cx.accounts.to_vec();
+        let (region, service, now_ns) = (cx.node.cfg.region.clone(), cx.node.cfg.service.clone(), cx.now_ns);
         let text = guard(out, "Debug of canonical request / authenticator", || {
             let mut s = String::new();
             if let Ok((cr, _, _)) = canonical::CanonicalRequest::from_request_parts(parts, Bytes::from(body), scratchstack_aws_signature::SignatureOptions {
@@ -643,6 +666,24 @@ fn judge_c17(cx: &DeliveryCtx, out: &mut RunOut) {
                 s.push_str(&format!("{:?}", cr));
                 if let Ok(a) = cr.get_authenticator(&scratchstack_aws_signature::NO_ADDITIONAL_SIGNED_HEADERS) {
                     s.push_str(&format!("{:?}", a));
+                    // a caller of the low-level API keeps the authenticator, validates with it and
+                    // renders it (or a clone) afterwards: whatever the validation left in it
+                    let accts = accounts_for_debug.clone();
+                    let mut provider = tower::service_fn(move |req: GetSigningKeyRequest| {
+                        let accts = accts.clone();
+                        async move {
+                            match libi::keystore_lookup(&accts, req.access_key(), req.session_token(), &Answer::Normal) {
+                                Ok((acct, secret)) => {
+                                    let k = libi::derive_with_library(secret, req.request_date(), req.region(), req.service(), 0).map_err(|e| Box::new(libi::HarnessError(e)) as tower::BoxError)?;
+                                    GetSigningKeyResponse::builder().principal(libi::principal_for(acct)).session_data(libi::session_for(acct)).signing_key(k).build().map_err(|e| Box::new(e) as tower::BoxError)
+                                }
+                                Err(a) => Err(libi::make_provider_error(&a, 0)),
+                            }
+                        }
+                    });
+                    let fut = a.validate_signature(&region, &service, libi::datetime_of(now_ns), chrono::Duration::minutes(15), &mut provider);
+                    let r = block_on_ready(fut);
+                    s.push_str(&format!("|after validation ({}): {:?} {:#?} {:?}", r.is_some(), a, a.clone(), r.map(|x| x.map(|_| ()))));
                 }
                 if let Ok(ap) = cr.get_auth_parameters(&scratchstack_aws_signature::NO_ADDITIONAL_SIGNED_HEADERS) {
                     s.push_str(&format!("{:?}", ap));
@@ -1140,6 +1181,43 @@ fn run_c18(t: &mut Tape, tier: Tier) -> RunOut {
                 compare(&mut out, "interleaved with the other validations on one thread (suspended in the provider)", i, &r);
             }
             out.probe("async_interleaved_same_thread");
+        }
+    }
+    // (6b) abandoned validations: clients disconnect while the key store is still thinking — the
+    // validation future is dropped mid-await (4-32 of them) — and what the corpus evaluates to
+    // afterwards is what it evaluated to before
+    {
+        let shared = Arc::new(Mutex::new(libi::Shared::new(accounts.clone(), 0)));
+        let mut tasks = Vec::new();
+        let n_abandon = 4 + t.below(29);
+        for k in 0..n_abandon {
+            let it = &items[k % items.len()];
+            let mut sc = it.script.clone();
+            sc.answer_pending = 50;
+            sc.answer_wake = libi::WakeMode::Withheld;
+            if let Ok(req) = it.wire.to_request() {
+                shared.lock().unwrap().scripts.push(sc);
+                let val = tasks.len();
+                tasks.push(vec![libi::Job {
+                    req,
+                    node: it.node.clone(),
+                    now_ns: it.now_ns,
+                    val,
+                }]);
+            }
+        }
+        let rep = libi::run_tasks(&shared, tasks, libi::ExecPolicy {
+            spurious_one_in: 0,
+            cancel_one_in: 2,
+            step_cap: 400,
+        }, t);
+        let abandoned = rep.outs.iter().filter(|o| !matches!(o, ValOut::Ok(_) | ValOut::Err(_))).count();
+        if abandoned > 0 {
+            out.probe("validations_abandoned_mid_await");
+        }
+        for (i, it) in items.iter().enumerate() {
+            let r = eval_item(&accounts, it);
+            compare(&mut out, "after validations that were abandoned mid-await", i, &r);
         }
     }
     // (7) real parallelism (not schedule-controlled: the assertion holds for every schedule, a
